@@ -421,6 +421,10 @@ func runC17(c *explore.Ctx) {
 			return
 		}
 	}
+	c17Conc(c, scratch)
+	if c.Expired() || c.NViolations() > 0 {
+		return
+	}
 	depth := 3
 	if c.Thorough() {
 		depth = 4
@@ -554,8 +558,8 @@ func init() {
 		Rule: "every program of length d over {Put(a),Put(b),Delete(a),Compact,Reopen,Backup,TornReopen x3 (3 bytes of a record / a record with a bad CRC / 600 zero bytes appended to the newest segment through the file system under test, lock file re-created),BigPut (70000-byte value: the file and its mapping grow in one step)} under BIGC, ROLL and a 150 KB-segment configuration is executed on simfs, fs.Mem, fs.OS and fs.OSMMap; " +
 			"after every step Get/Has of three keys, Count, a full scan, FileSize and Sync are called; error-or-nil and all returned bytes, and names/lengths/SHA-256 of the segment files (and of the backup's) after every Close, Open and at the end must be identical on all four file systems; states = distinct observation traces; plus one fixed program with a 130 MiB value (put, read back, one more Put, restart, read back) on all four",
 		Assumptions:   []string{"error texts are not compared (only error-or-nil)", "a mismatch involving fs.Mem is re-run 4x and reported only if it persists (Go map iteration order in fs.Mem's ReadDir)", "hash seed pinned so that index shapes are identical"},
-		QuickBudget:   100 * time.Second,
-		ThorBudget:    25 * time.Minute,
+		QuickBudget:   130 * time.Second,
+		ThorBudget:    30 * time.Minute,
 		ASLimitMB:     1 << 20,
 		Run:           runC17,
 		EvalKey:       "executions",
